@@ -179,18 +179,24 @@ func TestCheck(t *testing.T) {
 	for k := 1; k <= nAbove; k++ {
 		patterns = append(patterns, world.Patterns("eab", k)...)
 	}
+	ingressReserve := vf.Pick(r, 0*time.Second, 9*time.Minute)
 	var total explore.Stats
 	type job struct {
 		pattern string
 		initial uint64
 		custom  bool // non-default signature payload provider on producer and full node
 		budgets map[string]int
+		total   int // if >0: maximal number of deviations over all classes (thorough, chains of 3 blocks: one duplicate OR one restart)
 	}
 	var jobs []job
 	for _, pt := range patterns {
-		jobs = append(jobs, job{pt, 1, false, budgets})
+		tot := 0
+		if len(pt) >= 3 {
+			tot = 1
+		}
+		jobs = append(jobs, job{pt, 1, false, budgets, tot})
 	}
-	jobs = append(jobs, job{"ab", 3, false, budgets}, job{"ea", 3, false, budgets})
+	jobs = append(jobs, job{"ab", 3, false, budgets, 0}, job{"ea", 3, false, budgets, 0})
 	// configuration dimension "custom signature payload provider": the same chains and every permutation of their
 	// events with at most one clean restart at any idle point (quick: no duplicate — a re-delivered header replaces the
 	// cached one and so hides whatever the cache file did to it; thorough: duplicates as well on chains of <=2 blocks)
@@ -201,7 +207,7 @@ func TestCheck(t *testing.T) {
 		if r.Thorough() && len(j.pattern) <= 2 {
 			b = budgets
 		}
-		jobs = append(jobs, job{j.pattern, j.initial, true, b})
+		jobs = append(jobs, job{j.pattern, j.initial, true, b, j.total})
 	}
 	// the (small) custom-provider jobs run first so that a deadline under load never cuts them
 	jobs = append(append([]job(nil), jobs[nDefaultJobs:]...), jobs[:nDefaultJobs]...)
@@ -329,12 +335,12 @@ func TestCheck(t *testing.T) {
 		if j.custom {
 			cfgName, okey = " custom-signature-payload-provider", "custom:"+j.pattern
 		}
-		left := time.Until(deadline)
+		left := time.Until(deadline) - ingressReserve // the ingress level below keeps its share of the deadline
 		if left <= 0 {
-			caps = append(caps, "deadline reached before pattern "+j.pattern)
+			caps = append(caps, "deadline share of the event level reached before pattern "+j.pattern)
 			break
 		}
-		st := explore.Explore(explore.Config{Budgets: j.budgets, Deadline: left, ShardDepth: 2}, func(c *explore.Ctx) {
+		st := explore.Explore(explore.Config{Budgets: j.budgets, Total: j.total, Deadline: left, ShardDepth: 2}, func(c *explore.Ctx) {
 			o := body(t, c, pc)
 			if o.fail != nil {
 				r.Report(vf.Violation{Clause: o.fail.Clause, Tags: o.tags, Msg: fmt.Sprintf("%s\n chain: genesis+%q initial=%d%s\n deliveries: %s", o.fail.Msg, j.pattern, j.initial, cfgName, strings.Join(o.trace, " ")), Cost: len(o.trace), History: map[string]any{"Pattern": j.pattern, "Initial": j.initial, "Custom": j.custom, "Choices": c.Choices()}})
@@ -398,8 +404,8 @@ func TestCheck(t *testing.T) {
 	total.Points += l2.Points
 	r.Finish(vf.Coverage{
 		Evaluations: total.Executions, DistinctNontrivial: int64(r.DistinctOutcomes()), States: total.Executions, Transitions: total.Points,
-		Rule:       "for every producer chain pattern over {empty, A, B} of 1..n blocks above the genesis block (incl. identical transaction lists) and two chains with initial height 3: every permutation of the header/data events, with at most one duplicated event at any later position and at most one clean stop/restart at any idle point; the same chains once more in the configuration 'non-default signature payload provider on producer and full node' (every permutation, at most one clean restart at any idle point — so every set of headers/data waiting in the caches travels through the cache file — duplicates per custom_payload_budgets); ingress level (all five loops, restart between any two steps) once more with the non-default signature payload provider within ingress_custom_payload_budgets, and additionally in the crowded-height configuration: all genuine blobs at one DA height (each of the 3) behind N filler blobs, for every N that puts a genuine blob on an index in {b-1, b, b+1, 2b, 2b+1} of the height (b = retrieval batch size 100), scan ahead of or in step with the DA layer, DA the only ingress; distinct = distinct delivery traces",
+		Rule:       "for every producer chain pattern over {empty, A, B} of 1..n blocks above the genesis block (incl. identical transaction lists) and two chains with initial height 3: every permutation of the header/data events, with at most one duplicated event at any later position and at most one clean stop/restart at any idle point (chains of 3 blocks above genesis, thorough tier only: one duplicate OR one restart); the same chains once more in the configuration 'non-default signature payload provider on producer and full node' (every permutation, at most one clean restart at any idle point — so every set of headers/data waiting in the caches travels through the cache file — duplicates per custom_payload_budgets); ingress level (all five loops, restart between any two steps) once more with the non-default signature payload provider within ingress_custom_payload_budgets, and additionally in the crowded-height configuration: all genuine blobs at one DA height (each of the 3) behind N filler blobs, for every N that puts a genuine blob on an index in {b-1, b, b+1, 2b, 2b+1} of the height (b = retrieval batch size 100), scan ahead of or in step with the DA layer, DA the only ingress; distinct = distinct delivery traces",
 		Exhaustive: true, Caps: caps,
-		Bounds: map[string]any{"blocks_above_genesis": nAbove, "patterns": nDefaultJobs, "budgets": budgets, "custom_payload_patterns": len(jobs) - nDefaultJobs, "custom_payload_budgets": customBudgets, "custom_payload_budgets_thorough_chains_up_to_2_blocks": budgets, "custom_payload_executions_shard0": customRuns, "ingress_patterns": l2patterns, "ingress_budgets": l2budgets, "ingress_executions": l2.Executions, "ingress_custom_payload_budgets": l2customBudgets, "ingress_custom_payload_executions_shard0": l2customRuns, "ingress_crowded_budgets": crowdBudgets, "ingress_crowded_executions_shard0": crowdRuns, "ingress_crowded_configurations": crowdConfigs, "ingress_crowded_filler_counts": crowdNs, "ingress_crowded_retrieval_batch": retrievalBatch},
+		Bounds: map[string]any{"blocks_above_genesis": nAbove, "chains_of_3_blocks_max_deviations": 1, "patterns": nDefaultJobs, "budgets": budgets, "custom_payload_patterns": len(jobs) - nDefaultJobs, "custom_payload_budgets": customBudgets, "custom_payload_budgets_thorough_chains_up_to_2_blocks": budgets, "custom_payload_executions_shard0": customRuns, "ingress_patterns": l2patterns, "ingress_budgets": l2budgets, "ingress_executions": l2.Executions, "ingress_custom_payload_budgets": l2customBudgets, "ingress_custom_payload_executions_shard0": l2customRuns, "ingress_crowded_budgets": crowdBudgets, "ingress_crowded_executions_shard0": crowdRuns, "ingress_crowded_configurations": crowdConfigs, "ingress_crowded_filler_counts": crowdNs, "ingress_crowded_retrieval_batch": retrievalBatch},
 	})
 }
